@@ -30,25 +30,26 @@ package scorch
 //@ ghostfield segment.PostingsIterator.plast uint64
 //@ ghostfield segment.PostingsIterator.pdone bool
 //@ uf segCount(it segment.PostingsIterator) uint64
-// (postings and iterators are mutable and reused: "pure heap" results are only comparable
-// within one heap version)
+// (postings are mutable and reused by their iterator: the doc number of a posting is ghost state
+// of the posting, read by Number(); it is not a function of the pointer)
+//@ ghostfield segment.Posting.pnum uint64
 //@ assume func segment.Posting.Number(p)
-//@   pure heap
+//@   requires p != nil
+//@   ensures result == p.pnum
 //@ assume func segment.PostingsIterator.BytesRead(it)
-//@   pure heap
 //@ assume func segment.PostingsIterator.Next(it)
 //@   requires it != nil
-//@   modifies it.pstarted, it.plast, it.pdone
+//@   modifies it.pstarted, it.plast, it.pdone, segment.Posting.pnum
 //@   ensures implies(result1 != nil, result0 == nil)
 //@   ensures implies(old(it.pdone) && result1 == nil, result0 == nil)
-//@   ensures implies(result1 == nil && result0 != nil, result0.Number() < segCount(it) && implies(old(it.pstarted), result0.Number() > old(it.plast)) && it.pstarted && it.plast == result0.Number() && !it.pdone)
+//@   ensures implies(result1 == nil && result0 != nil, result0.pnum < segCount(it) && implies(old(it.pstarted), result0.pnum > old(it.plast)) && it.pstarted && it.plast == result0.pnum && !it.pdone)
 //@   ensures implies(result1 == nil && result0 == nil, it.pdone && it.pstarted == old(it.pstarted) && it.plast == old(it.plast))
 //@ assume func segment.PostingsIterator.Advance(it, docNum)
 //@   requires it != nil && (it.pdone || !it.pstarted || docNum > it.plast)
-//@   modifies it.pstarted, it.plast, it.pdone
+//@   modifies it.pstarted, it.plast, it.pdone, segment.Posting.pnum
 //@   ensures implies(result1 != nil, result0 == nil)
 //@   ensures implies(old(it.pdone) && result1 == nil, result0 == nil)
-//@   ensures implies(result1 == nil && result0 != nil, result0.Number() < segCount(it) && result0.Number() >= docNum && it.pstarted && it.plast == result0.Number() && !it.pdone)
+//@   ensures implies(result1 == nil && result0 != nil, result0.pnum < segCount(it) && result0.pnum >= docNum && it.pstarted && it.plast == result0.pnum && !it.pdone)
 //@   ensures implies(result1 == nil && result0 == nil, it.pdone && it.pstarted == old(it.pstarted) && it.plast == old(it.plast))
 
 // A snapshot's offsets: one per segment, starting at 0, non-decreasing. Opaque: only the
@@ -97,13 +98,12 @@ package scorch
 
 // Next: ids strictly ascending.
 //@ assume func segment.DiskStatsReporter.BytesRead(it)
-//@   pure heap
 //@ func IndexSnapshotTermFieldReader.Next
 //@   props C08
 //@   mode int
 //@   prune
 //@   requires i != nil && tfrShape(i) && tfrCursor(i) && !i.updateBytesRead && !i.includeFreq && !i.includeNorm && !i.includeTermVectors
-//@   modifies i.segmentOffset, i.currID, i.currPosting, i.gstarted, i.glast, i.gseg, segment.PostingsIterator.pstarted, segment.PostingsIterator.plast, segment.PostingsIterator.pdone, fields(index.TermFieldDoc), mem(byte)
+//@   modifies i.segmentOffset, i.currID, i.currPosting, i.gstarted, i.glast, i.gseg, segment.PostingsIterator.pstarted, segment.PostingsIterator.plast, segment.PostingsIterator.pdone, segment.Posting.pnum, fields(index.TermFieldDoc), mem(byte)
 //@   at return: ghost i.gstarted = i.gstarted || (result1 == nil && result0 != nil)
 //@   at return: ghost i.glast = ite(result1 == nil && result0 != nil, idNum(result0.ID), i.glast)
 //@   at return: ghost i.gseg = ite(result1 == nil && result0 != nil, i.segmentOffset, i.gseg)
@@ -130,7 +130,7 @@ package scorch
 //@   reveal offsetsOK
 //@   requires i != nil && tfrShape(i) && tfrCursor(i) && !i.updateBytesRead && !i.includeFreq && !i.includeNorm && !i.includeTermVectors
 //@   requires implies(i.gstarted, idNum(ID) > i.glast)
-//@   modifies i.segmentOffset, i.currID, i.currPosting, i.gstarted, i.glast, i.gseg, segment.PostingsIterator.pstarted, segment.PostingsIterator.plast, segment.PostingsIterator.pdone, fields(index.TermFieldDoc), mem(byte)
+//@   modifies i.segmentOffset, i.currID, i.currPosting, i.gstarted, i.glast, i.gseg, segment.PostingsIterator.pstarted, segment.PostingsIterator.plast, segment.PostingsIterator.pdone, segment.Posting.pnum, fields(index.TermFieldDoc), mem(byte)
 //@   at return: ghost i.gstarted = i.gstarted || (result1 == nil && result0 != nil)
 //@   at return: ghost i.glast = ite(result1 == nil && result0 != nil, idNum(result0.ID), i.glast)
 //@   at return: ghost i.gseg = ite(result1 == nil && result0 != nil, i.segmentOffset, i.gseg)
